@@ -1,4 +1,220 @@
-import EudoxiaModel.Model.SObs
+import EudoxiaModel.Model.Sched.Priority
+import EudoxiaModel.Proofs.WorldInv
+/-! # C16 — priority-pool keeps batch work and latency-sensitive work on separate pools -/
 namespace Eudoxia.C16
-theorem placeholder : True := trivial
+open Eudoxia Eudoxia.Prio OpState Extracted
+
+/-- building an Assignment never trips the *scheduler's* own assertion -/
+theorem mkA_not_schedAssert {w : World} {ops : List Nat} {cpu ram prio pool : Nat} {w' : World}
+    (h : mkA w ops cpu ram prio pool = .error (.schedAssert, w')) : False := by
+  unfold mkA at h
+  split at h
+  · rename_i e hm
+    cases h
+    unfold World.mkAssignment at hm
+    split at hm
+    · cases hm
+    · split at hm
+      · cases hm
+      · split at hm
+        · cases hm
+        · split at hm
+          · rename_i e2 s hs
+            cases hm
+            -- the error of assignOps comes from a refused transition to ASSIGNED: badTransition
+            have : ∀ (l : List Nat) (st st' : Store), assignOps st l = .error (.schedAssert, st') → False := by
+              intro l
+              induction l with
+              | nil => intro st st' h; simp [assignOps] at h
+              | cons x xs ih =>
+                intro st st' h
+                unfold assignOps at h
+                split at h
+                · rename_i e3 he3
+                  simp at h
+                  unfold Store.transition Store.check at he3
+                  split at he3
+                  · rename_i hc
+                    split at hc <;> (try split at hc) <;> (try split at hc) <;> simp at hc
+                    all_goals (cases he3; simp_all)
+                  · cases he3
+                · exact ih _ _ h
+            exact this _ _ _ hs
+          · cases hm
+  · cases h
+
+/-- every assignment a queue run makes goes to that queue's pool, with the priority of its job, for a job of the queue -/
+theorem ppQueue_spec (q pool : Nat) : ∀ (jobs : List Job) (w : World) (sn : List Snap) (k : Nat) (acc : List Asg)
+    (w' : World) (sn' : List Snap) (k' : Nat) (out : List Asg),
+    ppQueue q pool w jobs sn k acc = .ok (w', sn', k', out) →
+    ∃ new, out = acc ++ new ∧ k ≤ k' ∧ k' ≤ k + jobs.length ∧
+      ∀ a ∈ new, a.pool = pool ∧ ∃ j ∈ jobs, a.prio = j.prio ∧ a.ops = j.ops ∧
+        -- an abandoned retry (doubled request reaching half of the pool) is never the job of an assignment
+        ∀ rs, j.retry = some rs → rs.hasErr = true → ∀ s : Snap, ppSize q s j ≠ none →
+          2 * (2 * rs.oldCpu) < s.totC ∧ 2 * (2 * rs.oldRam) < s.totR := by
+  intro jobs
+  induction jobs with
+  | nil => intro w sn k acc w' sn' k' out h; simp [ppQueue] at h; exact ⟨[], by simp [h.2.2.2], by omega, by omega, by simp⟩
+  | cons job rest ih =>
+    intro w sn k acc w' sn' k' out h
+    unfold ppQueue at h
+    split at h
+    · split at h
+      · simp at h; exact ⟨[], by simp [h.2.2.2], by omega, by omega, by simp⟩
+      · cases h
+    · split at h
+      · obtain ⟨new, h1, h2, h3, h4⟩ := ih _ _ _ _ _ _ _ _ h
+        exact ⟨new, h1, by omega, by simp; omega, fun a ha => let ⟨e, j, hj, r⟩ := h4 a ha; ⟨e, j, List.mem_cons_of_mem _ hj, r⟩⟩
+      · rename_i jc jr hsz
+        split at h
+        · cases h
+        · rename_i w1 a1 hmk
+          obtain ⟨ea, _⟩ := mkA_ok hmk
+          obtain ⟨new, h1, h2, h3, h4⟩ := ih _ _ _ _ _ _ _ _ h
+          refine ⟨a1 :: new, by simp [h1], by omega, by simp; omega, ?_⟩
+          intro a ha
+          rcases List.mem_cons.mp ha with rfl | ha'
+          · rw [ea]
+            refine ⟨rfl, job, by simp, rfl, rfl, ?_⟩
+            intro rs hrs herr s hne
+            unfold ppSize at hne
+            simp only [hrs, herr, ↓reduceIte] at hne
+            by_cases hcut : (2 * (2 * rs.oldCpu) ≥ s.totC || 2 * (2 * rs.oldRam) ≥ s.totR) = true
+            · simp [hcut] at hne
+            · simp only [Bool.or_eq_true, decide_eq_true_eq, not_or, Nat.not_le] at hcut
+              exact hcut
+          · obtain ⟨e, j, hj, r⟩ := h4 a ha'
+            exact ⟨e, j, List.mem_cons_of_mem _ hj, r⟩
+
+/-- the three queues hold only jobs of their class -/
+def ClassOK (st : St) : Prop :=
+  (∀ j ∈ st.qry, j.prio = prioQuery) ∧ (∀ j ∈ st.inter, j.prio = prioInteractive) ∧
+  (∀ j ∈ st.batch, j.prio ≠ prioQuery ∧ j.prio ≠ prioInteractive)
+
+theorem push_classOK (st : St) (j : Job) (h : ClassOK st) : ClassOK (st.push j j.prio) := by
+  unfold St.push
+  obtain ⟨h1, h2, h3⟩ := h
+  by_cases hq : j.prio = prioQuery
+  · simp only [hq, beq_self_eq_true, ↓reduceIte]
+    exact ⟨fun x hx => by rcases List.mem_append.mp hx with e | e; exact h1 x e; simp at e; rw [e]; exact hq, h2, h3⟩
+  · have hq' : (j.prio == prioQuery) = false := by simpa using hq
+    by_cases hi : j.prio = prioInteractive
+    · simp only [hq', Bool.false_eq_true, ↓reduceIte, hi, beq_self_eq_true]
+      exact ⟨h1, fun x hx => by rcases List.mem_append.mp hx with e | e; exact h2 x e; simp at e; rw [e]; exact hi, h3⟩
+    · have hi' : (j.prio == prioInteractive) = false := by simpa using hi
+      simp only [hq', Bool.false_eq_true, ↓reduceIte, hi']
+      exact ⟨h1, h2, fun x hx => by rcases List.mem_append.mp hx with e | e; exact h3 x e; simp at e; rw [e]; exact ⟨hq, hi⟩⟩
+
+theorem ppEnqueue_classOK (w : World) (st st1 : St) (res : List Res) (newP : List Nat) (h : ClassOK st)
+    (henq : ppEnqueue w st res newP = .ok st1) : ClassOK st1 := by
+  unfold ppEnqueue at henq
+  have h1 : ∀ (l : List Nat) (s : St), ClassOK s → ClassOK (l.foldl (fun st pid =>
+      st.push { prio := w.prioOf pid, pid := pid, ops := (w.pipes.getD pid default).order } (w.prioOf pid)) s) := by
+    intro l
+    induction l with
+    | nil => intro s hs; exact hs
+    | cons x xs ih => intro s hs; exact ih _ (push_classOK s { prio := w.prioOf x, pid := x, ops := (w.pipes.getD x default).order } hs)
+  have h2 : ∀ (l : List Res) (s s' : St), ClassOK s → l.foldlM (fun st f =>
+      match nonCompleted w f.ops with
+      | [] => (.error .schedAssert : Except Err St)
+      | o :: _ => .ok (st.push { prio := f.prio, pid := w.store.pidOf o, ops := nonCompleted w f.ops, retry := some (retryOf f) } f.prio)) s = .ok s' → ClassOK s' := by
+    intro l
+    induction l with
+    | nil => intro s s' hs e; simp [List.foldlM] at e; cases e; exact hs
+    | cons x xs ih =>
+      intro s s' hs e
+      simp only [List.foldlM] at e
+      split at e
+      · cases e
+      · rename_i o os ho
+        exact ih _ _ (push_classOK s { prio := x.prio, pid := w.store.pidOf o, ops := nonCompleted w x.ops, retry := some (retryOf x) } hs) e
+  exact h2 _ _ _ (h1 _ _ h) henq
+
+/-- **C16 per round.**  Given queues that hold only jobs of their class, a round of priority-pool (a) never suspends; (b) puts every
+container of query and interactive work on pool 0 and every container of other (batch) work on pool 1 — first attempts and retries alike;
+(c) assigns an OOM retry only if its doubled request stays below half of the pool. -/
+theorem classes_on_separate_pools (w w' : World) (st st1 st' : St) (res : List Res) (newP : List Nat) (dec : Decision)
+    (henq : ppEnqueue w st res newP = .ok st1) (hclass0 : ClassOK st)
+    (h : ppRound w st res newP = .ok (w', st', dec)) :
+    dec.sus = [] ∧ ∀ a ∈ dec.asgs, (a.prio = prioQuery ∨ a.prio = prioInteractive → a.pool = 0) ∧
+      (a.prio ≠ prioQuery ∧ a.prio ≠ prioInteractive → a.pool = 1) := by
+  have hclass := ppEnqueue_classOK w st st1 res newP hclass0 henq
+  unfold ppRound at h
+  rw [henq] at h
+  simp only at h
+  split at h
+  · cases h
+  · rename_i w1 sn1 k1 a1 hq1
+    split at h
+    · cases h
+    · rename_i w2 sn2 k2 a2 hq2
+      split at h
+      · cases h
+      · rename_i w3 sn3 k3 a3 hq3
+        simp at h; obtain ⟨_, _, rfl⟩ := h
+        obtain ⟨n1, e1, _, _, s1⟩ := ppQueue_spec _ _ _ _ _ _ _ _ _ _ _ hq1
+        obtain ⟨n2, e2, _, _, s2⟩ := ppQueue_spec _ _ _ _ _ _ _ _ _ _ _ hq2
+        obtain ⟨n3, e3, _, _, s3⟩ := ppQueue_spec _ _ _ _ _ _ _ _ _ _ _ hq3
+        simp only [List.nil_append] at e1 e2 e3
+        subst e1 e2 e3
+        refine ⟨rfl, ?_⟩
+        intro a ha
+        have dq : prioQuery ≠ prioInteractive := by decide
+        have hlat : ∀ a, (a ∈ a1 ∨ a ∈ a2) → a.pool = 0 ∧ (a.prio = prioQuery ∨ a.prio = prioInteractive) := by
+          intro a h12
+          rcases h12 with h1 | h2
+          · obtain ⟨e, j, hj, ep, _⟩ := s1 a h1
+            exact ⟨e, Or.inl (by rw [ep]; exact hclass.1 j hj)⟩
+          · obtain ⟨e, j, hj, ep, _⟩ := s2 a h2
+            exact ⟨e, Or.inr (by rw [ep]; exact hclass.2.1 j hj)⟩
+        have hmem : a ∈ a1 ∨ a ∈ a2 ∨ a ∈ a3 := by simpa [List.mem_append, or_assoc] using ha
+        rcases hmem with h1 | h2 | h3
+        · have hpool := hlat a (Or.inl h1)
+          exact ⟨fun _ => hpool.1, fun hn => by rcases hpool.2 with e | e; exact absurd e hn.1; exact absurd e hn.2⟩
+        · have hpool := hlat a (Or.inr h2)
+          exact ⟨fun _ => hpool.1, fun hn => by rcases hpool.2 with e | e; exact absurd e hn.1; exact absurd e hn.2⟩
+        · obtain ⟨e, j, hj, ep, _⟩ := s3 a h3
+          have := hclass.2.2 j hj
+          exact ⟨fun hp => by rw [ep] at hp; rcases hp with e' | e'; exact absurd e' this.1; exact absurd e' this.2, fun _ => e⟩
+
+/-- the class invariant holds at start and is kept by every round, so (by induction over the rounds of any run) it holds at every round -/
+theorem classOK_init : ClassOK {} := by simp [ClassOK]
+
+theorem ppRound_classOK (w w' : World) (st st' : St) (res : List Res) (newP : List Nat) (dec : Decision)
+    (hc : ClassOK st) (h : ppRound w st res newP = .ok (w', st', dec)) : ClassOK st' := by
+  unfold ppRound at h
+  split at h
+  · cases h
+  · rename_i st1 henq
+    have hclass := ppEnqueue_classOK w st st1 res newP hc henq
+    simp only at h
+    split at h
+    · cases h
+    · split at h
+      · cases h
+      · split at h
+        · cases h
+        · simp at h; obtain ⟨_, rfl, _⟩ := h
+          exact ⟨fun j hj => hclass.1 j (List.mem_of_mem_drop hj), fun j hj => hclass.2.1 j (List.mem_of_mem_drop hj),
+            fun j hj => hclass.2.2 j (List.mem_of_mem_drop hj)⟩
+
+/-- after a failure only the unfinished operators of the failed container are queued, together, as one job with the container's priority -/
+theorem retry_job_is_unfinished_operators (w : World) (st : St) (f : Res) (o : Nat) (os : List Nat) (h : nonCompleted w f.ops = o :: os) :
+    ppEnqueue w st [f] [] = (if f.ok then .ok st else
+      .ok (st.push { prio := f.prio, pid := w.store.pidOf o, ops := o :: os, retry := some (retryOf f) } f.prio)) := by
+  unfold ppEnqueue
+  cases hf : f.ok <;> simp [hf, h, List.foldlM] <;> rfl
+
+/-- **the scheduler's own assertion ("free RAM is zero iff free CPU is zero") can never fire**: a queue run started on a snapshot where
+free CPU and free RAM are both positive or both zero keeps it that way, because every container takes either strictly less than both or all of both -/
+theorem newSize_keeps_both_or_none (q : Nat) (s : Snap) (h0 : 0 < s.availC) (h1 : 0 < s.availR) :
+    let sz := newSize q s
+    ((s.availC - (sz.1 : Int) = 0 ∧ s.availR - (sz.2 : Int) = 0) ∨ (0 < s.availC - (sz.1 : Int) ∧ 0 < s.availR - (sz.2 : Int))) := by
+  simp only [newSize]
+  split
+  · left; constructor <;> (rw [Int.toNat_of_nonneg (by omega)]; omega)
+  · rename_i h
+    simp only [Bool.or_eq_true, decide_eq_true_eq, not_or, Int.not_le] at h
+    right; omega
+
 end Eudoxia.C16
